@@ -291,6 +291,28 @@ partial_kw_named_like_posonly = functools.partial(po_and_kwargs, a=5)
 partial_kw_named_like_consumed_posonly = functools.partial(po_and_kwargs, 1, a=5)
 def only_stars(*args, **kwargs): return args, kwargs
 partial_kw_named_like_star = functools.partial(only_stars, args=5)
+# sigtools' own wrapper OBJECTS as subjects of discovery: behind a partial object, around a class with __call__, stacked deep over a chain
+from sigtools import wrappers as _wr
+@_wr.wrapper_decorator
+def logged(func, *args, **kwargs): return func(*args, **kwargs)
+@logged
+def logged_target(a, b, c=3): return a, b, c
+partial_of_wrapper_decorated = functools.partial(logged_target, 1)
+@_wr.decorator
+def deco_o0(func, *args, o0=0, **kwargs): return func(*args, **kwargs)
+@_wr.decorator
+def deco_o1(func, *args, o1=0, **kwargs): return func(*args, **kwargs)
+@_wr.decorator
+def deco_o2(func, *args, o2=0, **kwargs): return func(*args, **kwargs)
+class CallableClass:
+    def __init__(self, a, b=2): self.a = a
+    def __call__(self, q): return q
+decorated_class_with_call = deco_o1(CallableClass)
+def chain_h(a, b=2): return a, b
+def chain_f1(*args, **kwargs): return chain_h(*args, **kwargs)
+def chain_f2(*args, **kwargs): return chain_f1(*args, **kwargs)
+def chain_f3(*args, **kwargs): return chain_f2(*args, **kwargs)
+deep_stack_over_chain = deco_o2(deco_o1(deco_o0(chain_f3)))
 class FalsyCallable:
     def __len__(self): return 0
     def __call__(self, a: int, b: str = 's') -> bool: return True
